@@ -108,6 +108,23 @@ def make_case(ctx, rng, route, norb):
             return None          # operator cancelled to a constant: the pinned empty-operator behaviour (C01 finding)
         return ham, U.fermionop_terms(op), e0, rng.choice(["single", "multi"]), {"nterms": len(op.terms),
                                                                               "individual": ham.is_individual()}
+    if route == "individual-spinbroken":
+        r = rng.choice([1, 2, 2, 3]) if norb > 2 else rng.choice([1, 2])
+        cre = rng.sample(range(2 * norb), r)
+        ann = rng.sample(range(2 * norb), r)
+        if sorted(cre) == sorted(ann):
+            return None
+        c = small() + (1j * small() if rng.random() < 0.5 else 0)
+        t_ = FermionOperator(tuple((m, 1) for m in cre) + tuple((m, 0) for m in ann), c)
+        op = t_ + hermitian_conjugated(t_)
+        try:
+            ham = fqe.get_sparse_hamiltonian(op, conserve_spin=False, e_0=e0)
+        except Exception:
+            return None
+        if len(ham.terms()) == 0:
+            return None
+        return ham, U.fermionop_terms(op), e0, "spinbroken", {"nterms": len(op.terms), "individual": ham.is_individual(),
+                                                            "string": str(t_)}
     if route == "taylor-dense":
         h1 = numpy.zeros((norb, norb), dtype=numpy.complex128)
         for i in range(norb):
@@ -130,11 +147,12 @@ def run(ctx):
     import props.C01 as C01
     d, rng = ctx.driver, ctx.rng
     quick = ctx.tier == "quick"
-    routes = ["diagonal", "quadratic", "quadratic-gso", "diagcoulomb", "individual", "sparse-multi", "taylor-dense"]
+    routes = ["diagonal", "quadratic", "quadratic-gso", "diagcoulomb", "individual", "sparse-multi", "taylor-dense",
+              "individual-spinbroken", "individual-spinbroken"]
     ncases = 70 if quick else 700
     for case in range(ncases):
         route = routes[case % len(routes)]
-        norb = rng.choice([2, 2, 3]) if route != "quadratic-gso" else 2
+        norb = rng.choice([2, 2, 3]) if route not in ("quadratic-gso",) else 2
         made = make_case(ctx, rng, route, norb)
         if made is None:
             continue
@@ -153,8 +171,13 @@ def run(ctx):
             continue
         psi = vec_of(w, dets)
         want = expm(-1j * t * H) @ psi
-        api = rng.choice(["time_evolve", "time_evolve", "agu-taylor", "agu-cheb"]) if route in ("taylor-dense", "sparse-multi") \
-            else "time_evolve"
+        if route in ("taylor-dense", "sparse-multi"):
+            api = rng.choice(["time_evolve", "time_evolve", "agu-taylor", "agu-cheb"])
+        elif route in ("diagonal", "quadratic", "diagcoulomb", "quadratic-gso") and abs(t) <= 0.5:
+            # the polynomial propagators must agree with the exact routes for every Hamiltonian class
+            api = rng.choice(["time_evolve", "time_evolve", "agu-taylor", "agu-cheb"])
+        else:
+            api = "time_evolve"
         desc["api"] = api
         try:
             before = U.wfn_dict(w)
@@ -244,6 +267,44 @@ def run(ctx):
                     ctx.disagree(f"evolve-compose-raises:{route}:RuntimeError", str(exc), desc)
             except Exception as exc:
                 ctx.disagree(f"evolve-compose-raises:{route}:{type(exc).__name__}", str(exc), desc)
+
+
+    # ---- quadratic route on a sector wider than the internal column batch (462 > 450) ------------------------
+    from props.C12 import compound_expect
+    for case in range(1 if quick else 6):
+        norb, na, nb = rng.choice([(11, 1, 5), (11, 5, 1)])
+        w = fqe.Wavefunction([[na + nb, na - nb, norb]])
+        key = (na + nb, na - nb)
+        dets = U.wfn_dets(w)
+        sec = w.sector(key)
+        astr = [int(x) for x in sec._core.string_alpha_all()]
+        bstr = [int(x) for x in sec._core.string_beta_all()]
+        data = numpy.zeros(sec.coeff.shape, dtype=numpy.complex128)
+        for k in rng.sample(range(len(dets)), 3):
+            a, b = dets[k]
+            data[astr.index(a), bstr.index(b)] = complex(rng.randint(1, 3), rng.randint(-2, 2))
+        w.set_wfn(strategy="from_data", raw_data={key: data})
+        w.normalize()
+        nr = numpy.random.RandomState(ctx.seed * 5 + case)
+        A = nr.randn(norb, norb) + 1j * nr.randn(norb, norb)
+        h1 = (A + A.conj().T) / 4
+        e0, t = 0.3, 0.4
+        ham = fqe.get_restricted_hamiltonian((h1,), e_0=e0)
+        desc = {"route": "quadratic-wide", "norb": norb, "nalpha": na, "nbeta": nb, "t": t, "e0": e0, "case": case}
+        try:
+            out = w.time_evolve(t, ham)
+        except Exception as exc:
+            ctx.disagree(f"evolve-raises:quadratic-wide:{type(exc).__name__}", str(exc)[:200], desc)
+            continue
+        Umat = expm(-1j * t * h1)
+        exp = compound_expect(norb, U.wfn_entries(w), Umat, Umat, dets)
+        got = U.wfn_dict(out)
+        worst = max(abs(got[k] - numpy.exp(-1j * t * e0) * exp[k]) for k in got)
+        ctx.case(("evolve-wide", case))
+        ctx.count("route:quadratic-wide")
+        if worst > 1e-8:
+            ctx.disagree("evolve:quadratic:wide-sector", f"distance to the free-fermion result = {worst:.3e} on a "
+                         f"{len(astr)} x {len(bstr)} sector", desc)
 
 
 def replay(ctx, rep):
